@@ -196,8 +196,21 @@ class T:
             base, (_, vidx, vname) = t.args
             if vname in ("Some", "Ok", "Err", "Continue", "Break"):
                 return T.payload(base, vname)
-        if t.op == "phi_sel":
-            pass
+        if k == "idx" and t.op == "deref" and elem[1].op == "const" and isinstance(elem[1].args[1], int):
+            # element k of a successful prefix / sub-range view of a slice is an element of the slice itself:
+            # x.get(..n)?[k] = x[k] (k < n), x.get(a..b)?[k] = x[a + k] (a + k < b), x.first_chunk::<N>()?[k] = x[k]
+            v = t.args[0]
+            if v.op == "payload" and v.args[1] == "Some" and v.args[0].op == "call":
+                c = v.args[0]
+                kk = elem[1].args[1]
+                if c.args[0] == "[T]::get" and len(c.args[2]) == 2 and c.args[2][1].op == "agg":
+                    r = c.args[2][1]
+                    if r.args[1] == "ops::RangeTo" and r.args[4][0].op == "const" and kk < r.args[4][0].args[1]:
+                        return T.proj(T.deref(c.args[2][0]), elem)
+                    if r.args[1] == "ops::Range" and r.args[4][0].op == "const" and r.args[4][1].op == "const" and r.args[4][0].args[1] + kk < r.args[4][1].args[1]:
+                        return T.proj(T.deref(c.args[2][0]), ("idx", T.const("usize", r.args[4][0].args[1] + kk)))
+                if c.args[0] == "[T]::first_chunk" and len(c.args[2]) == 1:
+                    return T.proj(T.deref(c.args[2][0]), elem)
         return Term("proj", t, elem)
 
     @staticmethod
@@ -298,6 +311,14 @@ class T:
         if t.op == "call" and t.args[0] in ("ops::Index::index", "ops::IndexMut::index_mut") and len(t.args[2]) == 2 and t.args[2][1].op == "agg":
             # s[..k] has length k, s[a..b] has length b - a (the indexing returned, so the range was in bounds)
             r = t.args[2][1]
+            if r.args[1] == "ops::RangeTo":
+                return r.args[4][0]
+            if r.args[1] == "ops::Range":
+                return T.bin("Sub", r.args[4][1], r.args[4][0], "usize")
+        if t.op == "payload" and t.args[1] == "Some" and t.args[0].op == "call" and t.args[0].args[0] == "[T]::get" and len(t.args[0].args[2]) == 2 \
+                and t.args[0].args[2][1].op == "agg":
+            # x.get(..n)? has length n, x.get(a..b)? has length b - a (the lookup succeeded, so the range was in bounds)
+            r = t.args[0].args[2][1]
             if r.args[1] == "ops::RangeTo":
                 return r.args[4][0]
             if r.args[1] == "ops::Range":
